@@ -35,6 +35,7 @@ type Op struct {
 	// path ("…/store-live" backed up into "…/store"); Twin: the put writes a key exactly as long as the key the harness
 	// writes into opened backups (so that source and copy grow by the same number of bytes)
 	PrefixDst bool `json:"prefixDst,omitempty"`
+	Nested    bool `json:"nested,omitempty"` // backup: into a fresh sub-directory of the data directory itself
 	Twin      int  `json:"twin,omitempty"`
 }
 
@@ -846,9 +847,11 @@ func (r *Runner) checkFold(stopAfter int, writes []RaceOp) *Fail {
 		want = append(want, k)
 	}
 	sort.Strings(want)
+	var keptK [][]byte
 	err := r.DB.Fold(func(key, value []byte) bool {
 		n++
 		gotK = append(gotK, string(key))
+		keptK = append(keptK, key) // "collect now, process later": looked at again after Fold has returned
 		ScribbleBehind(key)
 		wv, ok := snap[string(key)]
 		if !ok {
@@ -884,6 +887,11 @@ func (r *Runner) checkFold(stopAfter int, writes []RaceOp) *Fail {
 	}
 	if bad != nil {
 		return bad
+	}
+	for i, k := range keptK {
+		if string(k) != gotK[i] {
+			return failf("fold-key-changed-after-the-callback", "the key slice handed to the Fold callback at position %d read %q then and reads %q after Fold has returned (keys kept by the callback must stay what they were)", i, gotK[i], k)
+		}
 	}
 	if err != nil {
 		return failf("fold-error", "Fold returned %v", err)
@@ -1326,7 +1334,11 @@ func (r *Runner) execBackup(op *Op) *Fail {
 	}
 	r.F.Backups++
 	dst := filepath.Join(r.Base, fmt.Sprintf("backup-%d", r.F.Backups))
-	if op.PrefixDst && !r.prefixDstUsed {
+	if op.Nested {
+		// the application keeps its backups in sub-directories of the data directory (Open ignores sub-directories)
+		dst = filepath.Join(r.Dir, fmt.Sprintf("bk-%d", r.F.Backups))
+		r.Stats.Label("backup-into-a-sub-directory-of-the-data-directory")
+	} else if op.PrefixDst && !r.prefixDstUsed {
 		if rs := []rune(filepath.Base(r.Dir)); len(rs) > 1 {
 			r.prefixDstUsed = true
 			dst = filepath.Join(r.Base, string(rs[:len(rs)-1]))
